@@ -271,8 +271,62 @@ func c18EndToEnd(sh *explore.Shard) {
 			return true
 		}
 		one(&gen.Scenario{Repo: r, Explicit: [][2]string{{"blobC", string(special["blobC"])}}, Desc: desc}, sizes.NameStyleFull)
+		// partial selections: a reference that is not walked is still processed
+		// (registered and tallied) in the references phase; ROOT only: none is walked
+		nr := len(r.Refs)
+		for _, mask := range []uint{1, uint(1)<<uint(nr-1) | 2, 0} {
+			walk := map[string]bool{}
+			for i, ref := range r.Refs {
+				if mask&(1<<uint(i)) != 0 {
+					walk[ref.Name] = true
+				}
+			}
+			one(&gen.Scenario{Repo: r, WalkRefs: walk, Explicit: [][2]string{{"c0", string(special["c0"])}}, Desc: fmt.Sprintf("%s refs=%b + ROOT", desc, mask)}, sizes.NameStyleFull)
+		}
 		return true
 	})
+	// sizes around internal batch sizes: n distinct blobs/trees/commits/tags for n
+	// around 256 and 1024 (one wide tree; a chain of n commits each with its own
+	// tree and blob; a chain of n annotated tags)
+	for _, n := range []int{255, 256, 257, 258, 513, 1023, 1024, 1025, 1029, 2050} {
+		for shape := 0; shape < 3; shape++ {
+			idx++
+			if !sh.Mine(idx) || sh.Expired() {
+				continue
+			}
+			r := mrepo.New()
+			switch shape {
+			case 0:
+				var es []mrepo.Entry
+				for i := 0; i < n; i++ {
+					es = append(es, mrepo.Entry{Mode: 0o100644, Name: fmt.Sprintf("f%05d", i), Child: r.AddBlob([]byte(fmt.Sprintf("blob %d", i)))})
+				}
+				c := r.AddCommit(mrepo.CommitSpec{Tree: r.AddTree(es), Time: gen.T0, Message: "wide\n"})
+				r.SetRef("refs/heads/main", c)
+			case 1:
+				var prev []mrepo.ID
+				var c mrepo.ID
+				for i := 0; i < n; i++ {
+					t := r.AddTree([]mrepo.Entry{{Mode: 0o100644, Name: "f", Child: r.AddBlob([]byte(fmt.Sprintf("v%d", i)))}})
+					c = r.AddCommit(mrepo.CommitSpec{Tree: t, Parents: prev, Time: gen.T0 + int64(i), Message: fmt.Sprintf("c%d\n", i)})
+					prev = []mrepo.ID{c}
+				}
+				r.SetRef("refs/heads/main", c)
+			case 2:
+				b := r.AddBlob([]byte("x"))
+				t := r.AddTree([]mrepo.Entry{{Mode: 0o100644, Name: "f", Child: b}})
+				cur := r.AddCommit(mrepo.CommitSpec{Tree: t, Time: gen.T0, Message: "c\n"})
+				for i := 0; i < n; i++ {
+					cur = r.AddTag(mrepo.TagSpec{Target: cur, Name: fmt.Sprintf("t%d", i), Time: gen.T0, Message: "t\n"})
+					if i%100 == 0 {
+						r.SetRef(fmt.Sprintf("refs/tags/mid%d", i), cur)
+					}
+				}
+				r.SetRef("refs/tags/top", cur)
+			}
+			one(&gen.Scenario{Repo: r, Desc: fmt.Sprintf("%d objects, shape %d (0 wide tree, 1 commit chain, 2 tag chain)", n, shape)}, sizes.NameStyleFull)
+		}
+	}
 }
 
 // c18Replay re-executes one recorded schedule (no exploration).
@@ -355,6 +409,6 @@ func c18Parent(prop, tier string) int {
 
 func init() {
 	Registry["C18"] = &Check{Level: "model_checking", Worker: c18Worker, Parent: c18Parent, ReplayExe: "/verif/.build/vcheck-sched", Replay: c18Replay, QuickBudget: 60 * time.Second, ThoroughBudget: 10 * time.Minute,
-		Rule:        "the real meter/meter.go, mechanically rewritten from its current text so that every mutex, atomic, channel, select, close, ticker and go statement is a scheduling point of a cooperative scheduler (one logical thread at a time), as is every write to the meter's writer; threads: the worker (Start/Inc*/Done per phase), every ticker goroutine the code spawns, one environment thread per ticker offering 2 (quick) / 3 (thorough) ticks; ALL schedules with at most 3 (quick) / 4 (thorough) deviations from the default schedule are executed; oracle on the byte frames written to the meter's writer: exactly one LF-terminated frame per phase carrying the number of Inc calls, counts within a phase never decrease and never exceed the final count, no frame of a phase after its final line or before its Start; deadlock, panic and step-horizon are violations; every violation is confirmed by replaying its schedule twice. end-to-end: in-process scans of all commit DAGs n<=3 (all commits sharing one root tree) and the mixed family with the real meter: each phase's final line must carry the census count of its kind (references phase: number of roots). states = distinct frame sequences observed; transitions = scheduling steps; non-trivial = executions whose schedule contains at least one deviation (every explored schedule is distinct)",
+		Rule:        "the real meter/meter.go, mechanically rewritten from its current text so that every mutex, atomic, channel, select, close, ticker and go statement is a scheduling point of a cooperative scheduler (one logical thread at a time), as is every write to the meter's writer; threads: the worker (Start/Inc*/Done per phase), every ticker goroutine the code spawns, one environment thread per ticker offering 2 (quick) / 3 (thorough) ticks; ALL schedules with at most 3 (quick) / 4 (thorough) deviations from the default schedule are executed; oracle on the byte frames written to the meter's writer: exactly one LF-terminated frame per phase carrying the number of Inc calls, counts within a phase never decrease and never exceed the final count, no frame of a phase after its final line or before its Start; deadlock, panic and step-horizon are violations; every violation is confirmed by replaying its schedule twice. end-to-end: in-process scans of all commit DAGs n<=3 (all commits sharing one root tree) and the mixed family (all references walked, partial selections with a ROOT, ROOT only) and repositories of 255..2050 distinct blobs / commits+trees+blobs / chained tags (sizes around internal batch sizes) with the real meter: each phase's final line must carry the census count of its kind (references phase: number of roots processed, walked or not). states = distinct frame sequences observed; transitions = scheduling steps; non-trivial = executions whose schedule contains at least one deviation (every explored schedule is distinct)",
 		Assumptions: []string{"scheduling points sit at synchronisation operations: an unsynchronised access is invisible to the explorer (data races are looked for by the separate free-running -race pass of C17, which is sampling and decides nothing)", "ticks beyond the per-ticker bound are not explored"}}
 }
